@@ -22,6 +22,8 @@ STRENGTHENED = {
     "C14c": "new exhaustive oracle `axis_aligned_pairs_exhaustive`: all 300 two-grain sets of axis-aligned orientations (misorientations exactly 0/90/120/180 degrees, on bin edges and on the end of the angle range) in several frames, triclinic and monoclinic",
     "C14b": "the uniform-texture limit is now compared with the independent correct M-index of the same texture (M <= M_ref + 0.02) instead of a loose multiple of it",
     "C05d": "steady histories now hand the solver one and the same array object from every callback call (`lambda t, x: L`, the commonest user callable) and a fixed position likewise; every array handed out by a callback, the parameter dictionary, the starting deformation gradient and the mineral list are audited for in-place modification after every update (`hist.update`, `hist.update_bulk`)",
+    "C09d": "the history oracle now drives every accepted regime (min/max viscosity, matrix diffusion as well as the dislocation regimes), set on the mineral or switched per update through the `get_regime` callback; sub-threshold grains at the start of such an update must still be floored",
+    "C13d": "new deformation-gradient families `inf` (R.V.diag(1+10^u d).V^T, u in [-10,-2]) and `tinyshear`, simple shear down to 1e-9; tolerances are now the measured conditioning of the decomposition (1e-12 S0 for the stretch, 1e-13/separation for the axis, calibrated on 200000 random gradients) instead of a flat 1e-9 with small strains skipped",
     "C20": "new differential part of `point_density`: raw estimates are rebuilt from the documented counting grid with pydrex's kernel functions, normalised, clipped and compared (1e-9)",
 }
 
